@@ -29,7 +29,7 @@ MAPPED = {"02": "AuthenticationError", "03": "BackoffError", "04": "MaxPeersErro
           "01": "InvalidError", "00": "InvalidError", "08": "InvalidError", "ff": "InvalidError"}
 DOCUMENTED = {"AuthenticationError", "BackoffError", "MaxPeersError", "MaxTriesError", "UnavailableError", "BusyError", "InvalidError"}
 STATES = ["expected", "plus1", "minus1", "zero", "absent", "2byte"]
-STEPS = {"setup-m2": 2, "setup-m4": 4, "setup-m6": 6, "verify-m2": 2, "verify-m4": 4}
+STEPS = {"setup-m2": 2, "setup-m4": 4, "setup-m6": 6, "verify-m2": 2, "verify-m4": 4, "verify-m2-resume": 2}
 
 
 def _state_val(kind, expected):
@@ -118,6 +118,22 @@ def case_cell(p):
         st = pairdrv.send(gen, None, None, style)
     ios_pub = C.x_pub_bytes(C.x_priv(C.det_bytes(pin, "x25519|1")))
     items, shared, acc_pub = hap.pv_m2(acc, C.det_bytes(pin, "acc-eph"), ios_pub)
+    if step == "verify-m2-resume":
+        # second exchange of a controller that holds a resumable session (as BLE does): the accessory's resume reply is authentic
+        # (its tag verifies against the old secret) but carries an error and/or a wrong step number
+        st0 = pairdrv.send(gen, tlv8.encode(items), st.value[1], style)
+        st0 = pairdrv.send(gen, tlv8.encode([(hap.T_STATE, b"\x04")]), st0.value[1], style) if st0.kind == "request" else st0
+        if st0.kind != "return":
+            return [("honest-prefix-failed", det)]
+        sid1, derive1 = st0.value
+        with pairdrv.pinned_keys(pin + "|2"):
+            gen2 = get_session_keys(pairing, sid1, derive1)
+            st2 = pairdrv.send(gen2, None, None, style)
+        ios_pub2 = C.x_pub_bytes(C.x_priv(C.det_bytes(pin + "|2", "x25519|1")))
+        ritems, _ = hap.resume_m2(ios_pub2, shared, C.det_bytes(pin, "newsid", 8))
+        others = [i for i in ritems if i[0] != hap.T_STATE]
+        st2 = pairdrv.send(gen2, _assemble(state, error, others, errpos, p.get("extra")), st2.value[1], style)
+        return _judge(st2, err, state_kind, det)
     if step == "verify-m2":
         others = [i for i in items if i[0] != hap.T_STATE and i[0] in subset]
         st = pairdrv.send(gen, _assemble(state, error, others, errpos, p.get("extra")), st.value[1], style)
@@ -152,14 +168,18 @@ def _work(item, seed, tier):
 
 
 def cells():
-    other_fields = {"setup-m2": [hap.T_PK, hap.T_SALT], "setup-m4": [hap.T_PROOF], "setup-m6": [hap.T_ENC], "verify-m2": [hap.T_PK, hap.T_ENC], "verify-m4": []}
+    other_fields = {"setup-m2": [hap.T_PK, hap.T_SALT], "setup-m4": [hap.T_PROOF], "setup-m6": [hap.T_ENC], "verify-m2": [hap.T_PK, hap.T_ENC], "verify-m4": [], "verify-m2-resume": ["resume"]}
     for step, fields in other_fields.items():
         subsets = [list(c) for r in range(len(fields) + 1) for c in itertools.combinations(fields, r)]
+        if step == "verify-m2-resume":
+            subsets = [["resume"]]  # the complete authentic resume reply (method, session id, tag)
         for err in ERRORS:
             for state in STATES:
                 for subset in subsets:
                     for errpos in (["last"] if err == "absent" else ["first", "afterstate", "last"]):
                         for style in pairdrv.STYLES:
+                            if step == "verify-m2-resume" and style == "ip":
+                                continue  # only BLE keeps a resumable session (IP/CoAP never pass one)
                             yield ("cell", dict(step=step, err=err, state=state, subset=subset, errpos=errpos, style=style))
                             if err != "absent" and errpos == "last" and subset == subsets[-1] and state in ("expected", "absent"):
                                 # the same cell with a field the step does not expect (RetryDelay 0x08, an unknown type 0x42) in front of the error
